@@ -438,7 +438,7 @@ def r_forget(ctx):
             role = "move_into:%s/%s" % (adt.split("::")[-1], arm_name(tt))
             res.inst(sample={"impl_for": adt, "resolved": path, "arm": arm_name(tt), "class": "lazy" if borrowing else "owning"}, func=path)
             copies = [e for e in I.all_effects(("COPY",))]
-            forgets = I.all_effects(("FORGET",))
+            forgets = I.all_effects(("FORGET", "MD_NEW"))      # mem::forget(self) or its body, `let _ = ManuallyDrop::new(self)`
             clones = I.all_effects(("CLONE_INTO", "CLONE"))
             rets = I.all_effects(("RETURN",))
             if borrowing:
